@@ -220,7 +220,7 @@ func TestC05Replay(t *testing.T) {
 				rt.Fatal(err)
 			}
 
-			endpoint := rapid.SampledFrom([]string{"update", "update", "peer", "withdraw", "addNode", "connect"}).Draw(rt, "endpoint")
+			endpoint := rapid.SampledFrom([]string{"update", "updateLegacy", "peer", "withdraw", "addNode", "connect", "client"}).Draw(rt, "endpoint")
 			mode := rapid.SampledFrom([]string{"immediately", "later", "later", "race", "reopen"}).Draw(rt, "mode")
 			if mode == "reopen" && driver != "badgerdisk" {
 				mode = "later"
@@ -233,6 +233,23 @@ func TestC05Replay(t *testing.T) {
 				n := s.nonce(who.nodeID)
 				sig := mustSign(who.key, "vipnode_update", who.nodeID, n, req)
 				submit = func() error { _, err := s.pool.Update(rpcCtx(), sig, who.nodeID, n, req); return err }
+			case "updateLegacy":
+				// an old agent signs only {peers, block_number}
+				req := pool.UpdateRequest{Peers: []string{hostID}, BlockNumber: 7}
+				n := s.nonce(who.nodeID)
+				sig := mustSign(who.key, "vipnode_update", who.nodeID, n, legacyUpdate{req.Peers, req.BlockNumber})
+				submit = func() error { _, err := s.pool.Update(rpcCtx(), sig, who.nodeID, n, req); return err }
+			case "client":
+				req := pool.ClientRequest{Kind: "geth", NumHosts: 1}
+				n := s.nonce(who.nodeID)
+				sig := mustSign(who.key, "vipnode_client", who.nodeID, n, req)
+				submit = func() error {
+					_, err := s.pool.Client(rpcCtx(), sig, who.nodeID, n, req)
+					if err != nil && classifyErr(err).Kind == "nohosts" {
+						return nil
+					}
+					return err
+				}
 			case "peer":
 				req := pool.PeerRequest{Num: 1}
 				n := s.nonce(who.nodeID)
@@ -312,7 +329,8 @@ func TestC05Replay(t *testing.T) {
 			before := s.digest()
 			err := submit()
 			after := s.digest()
-			if classifyErr(err).Kind != "verify" || !strings.Contains(err.Error(), "invalid nonce") {
+			// (a replayed legacy-form update is reported with the error of the first, new-form attempt: "bad signature")
+			if classifyErr(err).Kind != "verify" || (endpoint != "updateLegacy" && !strings.Contains(err.Error(), "invalid nonce")) {
 				rt.Fatalf("replayed %s (%s, delay %s) was not refused as a replay: err=%v", endpoint, mode, delayClass, err)
 			}
 			if before != after {
